@@ -284,11 +284,17 @@ func (g *Gen) NextBlock(h int64, tm int64, pre *MState, sim *TMSim, lastVals []*
 		ti := g.finish(d)
 		if kind == "replay" {
 			// replays reuse earlier bytes verbatim
-			if len(g.past) == 0 {
+			if len(g.past) == 0 && len(txs) == 0 {
 				continue
 			}
+			if len(g.past) == 0 {
+				g.past = append(g.past, txs[0])
+			}
 			old := g.past[g.rng.Intn(len(g.past))]
-			ti = &TxInfo{Tx: old.Tx, Raw: old.Raw, Hash: old.Hash, Label: "invalid:replay-of(" + old.Label + ")", Pub: old.Pub, SigOK: old.SigOK}
+			if len(txs) > 0 && g.rng.Intn(2) == 0 {
+				old = txs[g.rng.Intn(len(txs))] // a duplicate inside the same block
+			}
+			ti = &TxInfo{Tx: old.Tx, Raw: old.Raw, Hash: old.Hash, Label: "invalid:replay-of(" + strings.TrimPrefix(old.Label, "invalid:replay-of") + ")", Pub: old.Pub, SigOK: old.SigOK}
 		}
 		txs = append(txs, ti)
 		b.Txs = append(b.Txs, ti.Raw)
